@@ -2976,4 +2976,90 @@ theorem dsErrLoop_spec (total : Nat) (hdm : ∀ k k' dt w, dkeyIdent k = dkeyIde
       · rw [h2]; simp [hs']
 end
 
+/-! ### the decoder inverts RFC 4648 encoding -/
+
+theorem sextet_encChar : ∀ v, v < 64 → sextet (encChar v) = some v := by decide
+
+theorem ofNat_toNat_u8 (x : UInt8) : UInt8.ofNat x.toNat = x := by
+  apply UInt8.toNat_inj.mp
+  rw [toNat_ofNat_lt _ (toNat_lt x)]
+
+theorem emit4_bytes (x y z : UInt8) :
+    emit [x.toNat / 4, x.toNat % 4 * 16 + y.toNat / 16, y.toNat % 16 * 4 + z.toNat / 64, z.toNat % 64] 4 = [x, y, z] := by
+  have hx := toNat_lt x; have hy := toNat_lt y; have hz := toNat_lt z
+  unfold emit
+  simp only [List.getD_cons_zero, List.getD_cons_succ, List.take, Nat.reducePow]
+  have e1 : ((x.toNat / 4 * 262144 + (x.toNat % 4 * 16 + y.toNat / 16) * 4096 + (y.toNat % 16 * 4 + z.toNat / 64) * 64 + z.toNat % 64) / 65536 % 256) = x.toNat := by omega
+  have e2 : ((x.toNat / 4 * 262144 + (x.toNat % 4 * 16 + y.toNat / 16) * 4096 + (y.toNat % 16 * 4 + z.toNat / 64) * 64 + z.toNat % 64) / 256 % 256) = y.toNat := by omega
+  have e3 : ((x.toNat / 4 * 262144 + (x.toNat % 4 * 16 + y.toNat / 16) * 4096 + (y.toNat % 16 * 4 + z.toNat / 64) * 64 + z.toNat % 64) % 256) = z.toNat := by omega
+  rw [e1, e2, e3, ofNat_toNat_u8, ofNat_toNat_u8, ofNat_toNat_u8]
+
+theorem emit2_bytes (x : UInt8) : emit [x.toNat / 4, x.toNat % 4 * 16] 2 = [x] := by
+  have hx := toNat_lt x
+  unfold emit
+  simp only [List.getD_cons_zero, List.getD_cons_succ, List.getD_nil, List.take, Nat.reducePow]
+  have e1 : ((x.toNat / 4 * 262144 + x.toNat % 4 * 16 * 4096 + 0 * 64 + 0) / 65536 % 256) = x.toNat := by omega
+  rw [e1, ofNat_toNat_u8]
+
+theorem emit3_bytes (x y : UInt8) :
+    emit [x.toNat / 4, x.toNat % 4 * 16 + y.toNat / 16, y.toNat % 16 * 4] 3 = [x, y] := by
+  have hx := toNat_lt x; have hy := toNat_lt y
+  unfold emit
+  simp only [List.getD_cons_zero, List.getD_cons_succ, List.getD_nil, List.take, Nat.reducePow]
+  have e1 : ((x.toNat / 4 * 262144 + (x.toNat % 4 * 16 + y.toNat / 16) * 4096 + y.toNat % 16 * 4 * 64 + 0) / 65536 % 256) = x.toNat := by omega
+  have e2 : ((x.toNat / 4 * 262144 + (x.toNat % 4 * 16 + y.toNat / 16) * 4096 + y.toNat % 16 * 4 * 64 + 0) / 256 % 256) = y.toNat := by omega
+  rw [e1, e2, ofNat_toNat_u8, ofNat_toNat_u8]
+
+theorem decode_pad2 (x : UInt8) :
+    b64Decode [encChar (x.toNat / 4), encChar (x.toNat % 4 * 16), 61, 61] = ([x], true) := by
+  have hx := toNat_lt x
+  have s1 := sextet_encChar (x.toNat / 4) (by omega)
+  have s2 := sextet_encChar (x.toNat % 4 * 16) (by omega)
+  rw [b64Decode_step _ (by simp), q_sext _ _ _ [] s1 (by simp), q_sext _ _ _ _ s2 (by simp)]
+  have hq : quantum [61, 61] ([] ++ [x.toNat / 4] ++ [x.toNat % 4 * 16]) =
+      ⟨[], emit [x.toNat / 4, x.toNat % 4 * 16] 2, false⟩ := by
+    simp [quantum, sextet, isNL, dropNL]
+  rw [hq]
+  simp [b64Decode_nil, emit2_bytes]
+
+theorem decode_pad1 (x y : UInt8) :
+    b64Decode [encChar (x.toNat / 4), encChar (x.toNat % 4 * 16 + y.toNat / 16), encChar (y.toNat % 16 * 4), 61] = ([x, y], true) := by
+  have hx := toNat_lt x; have hy := toNat_lt y
+  have s1 := sextet_encChar (x.toNat / 4) (by omega)
+  have s2 := sextet_encChar (x.toNat % 4 * 16 + y.toNat / 16) (by omega)
+  have s3 := sextet_encChar (y.toNat % 16 * 4) (by omega)
+  rw [b64Decode_step _ (by simp), q_sext _ _ _ [] s1 (by simp), q_sext _ _ _ _ s2 (by simp), q_sext _ _ _ _ s3 (by simp)]
+  have hq : quantum [61] ([] ++ [x.toNat / 4] ++ [x.toNat % 4 * 16 + y.toNat / 16] ++ [y.toNat % 16 * 4]) =
+      ⟨[], emit [x.toNat / 4, x.toNat % 4 * 16 + y.toNat / 16, y.toNat % 16 * 4] 3, false⟩ := by
+    simp [quantum, sextet, isNL, dropNL]
+  rw [hq]
+  simp [b64Decode_nil, emit3_bytes]
+
+theorem decode_group (x y z : UInt8) (rest : Bytes) :
+    b64Decode ([encChar (x.toNat / 4), encChar (x.toNat % 4 * 16 + y.toNat / 16), encChar (y.toNat % 16 * 4 + z.toNat / 64),
+      encChar (z.toNat % 64)] ++ rest) = ([x, y, z] ++ (b64Decode rest).1, (b64Decode rest).2) := by
+  have hx := toNat_lt x; have hy := toNat_lt y; have hz := toNat_lt z
+  have s1 := sextet_encChar (x.toNat / 4) (by omega)
+  have s2 := sextet_encChar (x.toNat % 4 * 16 + y.toNat / 16) (by omega)
+  have s3 := sextet_encChar (y.toNat % 16 * 4 + z.toNat / 64) (by omega)
+  have s4 := sextet_encChar (z.toNat % 64) (by omega)
+  simp only [List.cons_append, List.nil_append]
+  rw [b64Decode_step _ (by simp), quantum_clean4 _ _ _ _ rest _ _ _ _ s1 s2 s3 s4]
+  simp [emit4_bytes]
+
+/-- **the decoder inverts RFC 4648 §4 encoding.** -/
+theorem b64Decode_encode : ∀ (n : Nat) (b : Bytes), b.length ≤ n → b64Decode (b64Encode b) = (b, true) := by
+  intro n
+  induction n using Nat.strongRecOn with
+  | _ n ih =>
+    intro b hlen
+    match b, hlen with
+    | [], _ => simp [b64Encode, b64Decode_nil]
+    | [x], _ => simp only [b64Encode]; exact decode_pad2 x
+    | [x, y], _ => simp only [b64Encode]; exact decode_pad1 x y
+    | x :: y :: z :: t, hlen =>
+      simp only [b64Encode]
+      rw [decode_group x y z (b64Encode t), ih (n - 3) (by simp at hlen; omega) t (by simp at hlen; omega)]
+      simp
+
 end SdnsVerif.Lemmas.DnssecPrim
